@@ -32,35 +32,35 @@ type retRec struct {
 }
 
 type loopInfo struct {
-	head  *ssa.BasicBlock
-	body  map[*ssa.BasicBlock]bool
-	ord   int
-	spec  *LoopSpec
-	preSt *State // state at loop entry (before havoc)
-	headSt *State // state after havoc, at head
-	phiVals map[*ssa.Phi]Val
+	head     *ssa.BasicBlock
+	body     map[*ssa.BasicBlock]bool
+	ord      int
+	spec     *LoopSpec
+	preSt    *State // state at loop entry (before havoc)
+	headSt   *State // state after havoc, at head
+	phiVals  map[*ssa.Phi]Val
 	variant0 string
-	cands   []*autoInv
+	cands    []*autoInv
 }
 
 type Frame struct {
-	e     *Exec
-	fn    *ssa.Function
-	depth int
-	vals  map[ssa.Value]Val
-	reach map[*ssa.BasicBlock]string
-	exitSt map[*ssa.BasicBlock]*State
-	edge  map[[2]*ssa.BasicBlock]string
-	defers []deferRec
-	binds []Val
-	rets  []retRec
-	st    *State // current state while executing a block
-	pc    string
-	cur   *ssa.BasicBlock
-	top   bool
-	loops map[*ssa.BasicBlock]*loopInfo
-	entryPC string
-	prefix string // anchor prefix for inlined frames
+	e         *Exec
+	fn        *ssa.Function
+	depth     int
+	vals      map[ssa.Value]Val
+	reach     map[*ssa.BasicBlock]string
+	exitSt    map[*ssa.BasicBlock]*State
+	edge      map[[2]*ssa.BasicBlock]string
+	defers    []deferRec
+	binds     []Val
+	rets      []retRec
+	st        *State // current state while executing a block
+	pc        string
+	cur       *ssa.BasicBlock
+	top       bool
+	loops     map[*ssa.BasicBlock]*loopInfo
+	entryPC   string
+	prefix    string // anchor prefix for inlined frames
 	debugVars map[string]ssa.Value
 	debugVals map[string]Val
 	debugSrc  []debugBind
@@ -420,6 +420,27 @@ func (fr *Frame) loopWrites(li *loopInfo) (keys map[string]bool, all bool) {
 			for _, k := range fr.e.keysOfPointer(x.Addr) {
 				keys[k] = true
 			}
+		case *ssa.Send, *ssa.Select:
+			if sel, isSel := in.(*ssa.Select); isSel {
+				hasSend := false
+				for _, stt := range sel.States {
+					if stt.Dir == types.SendOnly {
+						hasSend = true
+					}
+				}
+				if !hasSend {
+					return
+				}
+			}
+			// the engine's ghost bookkeeping of channel sends
+			if _, ok := fr.e.L.specs.GhostVars["chansends"]; ok {
+				keys["X:chansends"] = true
+			}
+			if fr.e.spec != nil && depth == 0 {
+				for g := range fr.e.spec.OnSendAdd {
+					keys["X:"+g] = true
+				}
+			}
 		case *ssa.Next:
 			if rg, ok := x.Iter.(*ssa.Range); ok && !x.IsString {
 				if _, isMap := rg.X.Type().Underlying().(*types.Map); isMap {
@@ -583,7 +604,6 @@ func (e *Exec) pendingHavoc(st *State, key string) {
 	e.nf++
 	st.heap[key] = fmt.Sprintf("\x00pending:%d:%s", e.nf, key)
 }
-
 
 func (fr *Frame) loopEnv(li *loopInfo, st *State, phiOverride map[*ssa.Phi]Val) *SpecEnv {
 	env := fr.e.baseEnv(fr, st)
